@@ -51,6 +51,10 @@ type provider struct {
 	services map[TypeKey]*Descriptor
 	groups   map[GroupKey][]*Descriptor
 
+	// Descriptors that stem from the same registration and share one instance:
+	// a constructor registered under several interfaces with As (immutable after build)
+	aliases map[uint64][]*Descriptor
+
 	// Dependency graph (immutable after build)
 	graph *graph.DependencyGraph
 
@@ -297,6 +301,16 @@ func (p *provider) setSingleton(key instanceKey, instance any) {
 		p.disposables = append(p.disposables, d)
 		p.disposablesMu.Unlock()
 	}
+}
+
+// cacheSingleton stores a singleton instance under an additional key without
+// tracking it for disposal again.
+func (p *provider) cacheSingleton(key instanceKey, instance any) {
+	p.singletons.Store(key, instance)
+
+	p.singletonKeysMu.Lock()
+	p.singletonKeys = append(p.singletonKeys, key)
+	p.singletonKeysMu.Unlock()
 }
 
 // findDescriptor finds a descriptor for the given service type and optional key.
